@@ -19,7 +19,7 @@ import (
 
 const ruleC19 = "stateful: histories of <= 10 (thorough <= 30) Parse calls drawn from a pool of (path, config) descriptors: valid paths; paths failing at every grammar action (bad index integer, bad float, bad regexp, bad quoted name, unknown function, script, value-group operand, two '@' operands, trailing garbage after a prefix that already built nodes, garbage inside a nested filter); configs none / {f1=A} / {f1=B} (same name, different function) / {g1} / accessor / accessor+{f1=A}; plus 'modify the Config after Parse, then call the earlier function', Parse with two Configs, Parse with the history's own []Config spread (configs[k:]...) and functions registered on its elements between calls, and Configs derived from another by copying the value and calling a setter on the copy. " +
 	"Oracle: the outcome of every call (nil or error type + text, and the returned function's behaviour on three probe documents: values, Accessor-ness, which f1 ran) equals the outcome of the same descriptor as the FIRST call of a fresh process (one exec per descriptor, cached). " +
-	"Non-trivial: a failing call is followed by a call with a different config, or a configured call by an unconfigured one using the same function name. Distinct = distinct history."
+	"Non-trivial: a failing call is followed by a call with a different config, or a configured call by an unconfigured one using the same function name. Distinct = distinct history. Config modifications include an aggregate function re-registered alone under its name."
 
 var c19Paths = []string{
 	// valid
